@@ -778,7 +778,7 @@ func (s *sim) Apply(op simcore.Op) bool {
 		e.Count("op.dlv")
 		return true
 	case "tick":
-		if !s.opTick(time.Duration(op.Int("us")) * time.Microsecond) {
+		if !s.opTick(time.Duration(op.Int("us"))*time.Microsecond, false) {
 			return false
 		}
 	case "stop":
@@ -872,7 +872,7 @@ func (s *sim) opSend(op simcore.Op) bool {
 
 // opTick advances the fake clock. In bp mode the clock never crosses a 2 s stats-tick of a
 // connection while a writer is parked (the tick would stay pending next to the send token).
-func (s *sim) opTick(d time.Duration) bool {
+func (s *sim) opTick(d time.Duration, final bool) bool {
 	if d <= 0 {
 		return false
 	}
@@ -914,6 +914,11 @@ func (s *sim) opTick(d time.Duration) bool {
 			left -= 2
 		}
 	case "rl":
+		if final {
+			// past the end of the trace the rate-limited schedule is allowed to be racy (see Finish)
+			time.Sleep(d)
+			return true
+		}
 		now := time.Now()
 		if !now.Add(d).Before(s.deadline) {
 			d = s.deadline.Sub(now)
@@ -1296,7 +1301,29 @@ func (s *sim) after() {
 			fmt.Fprintf(&sb, "acc=%d ref=%d pend=%d err=%v stop=%v w=%d av=%d park=%v]", acc, ref, pend, c.errored, c.stopped, len(s.h[i].wire), len(s.h[i].avail), c.end.wreq != nil)
 		}
 		e.Logf("st%s", sb.String())
-		e.State(s.mode, s.c[0].errored, s.c[1].errored, len(s.h[0].wire) > 0, len(s.h[1].wire) > 0, s.parked(), s.busyActors(0), s.busyActors(1), s.hostileBad)
+		bucket := func(n int) int {
+			switch {
+			case n == 0:
+				return 0
+			case n <= s.payload+12:
+				return 1
+			case n <= 10*(s.payload+12):
+				return 2
+			}
+			return 3
+		}
+		pend := func(i int) int {
+			n := 0
+			for j := 0; j < s.nch; j++ {
+				if s.c[i].acc[j] > 0 {
+					n++
+				}
+			}
+			return n
+		}
+		e.State(s.mode, s.payload, s.c[0].errored, s.c[1].errored, s.c[0].stopped, s.c[1].stopped, bucket(len(s.h[0].wire)), bucket(len(s.h[1].wire)),
+			bucket(len(s.h[0].avail)), bucket(len(s.h[1].avail)), s.c[0].end.wreq != nil, s.c[1].end.wreq != nil, s.busyActors(0), s.busyActors(1),
+			pend(0), pend(1), s.hostileBad, s.over[0] != nil || s.over[1] != nil, s.firstDown)
 	}
 }
 
@@ -1446,10 +1473,14 @@ func (s *sim) Finish() {
 	}
 	s.quiet = true
 	// drain: deliver, let timers fire, until everything accepted has arrived or 150 s passed.
-	// (The schedule may be racy here - the clock crosses stats ticks with writers parked - so
-	// nothing order-sensitive is logged; the final state of a correct implementation is unique.)
+	// The discipline of the mode is kept (bp: the clock stands still while a writer is parked),
+	// except in mode rl: there the clock has to pass the 2 s stats tick with a backlog, Go's
+	// select may then order {stats tick, send token} either way and the interleaving across
+	// channels is not reproducible. The final state of a correct implementation is unique all
+	// the same; nothing is written to the event log after this point in that mode.
+	e.Logf("finish")
 	limit := time.Now().Add(150 * time.Second)
-	for time.Now().Before(limit) {
+	for round := 0; round < 4000 && time.Now().Before(limit); round++ {
 		for i := 0; i < 20000; i++ {
 			s.mu.Lock()
 			ok := s.deliver(0, 1<<20)
@@ -1468,9 +1499,21 @@ func (s *sim) Finish() {
 		if done && busy == 0 {
 			break
 		}
-		time.Sleep(100*time.Millisecond + 1)
+		s.opTick(100*time.Millisecond+1, true)
 		e.Settle()
 		s.after()
+	}
+	if s.mode != "rl" {
+		s.mu.Lock()
+		var sb strings.Builder
+		for i := 0; i < 2; i++ {
+			for j := 0; j < s.nch; j++ {
+				fmt.Fprintf(&sb, " %d", len(s.c[i].recv[j]))
+			}
+			fmt.Fprintf(&sb, " err=%v;", s.c[i].errored)
+		}
+		s.mu.Unlock()
+		e.Logf("drained%s", sb.String())
 	}
 	s.mu.Lock()
 	fault := s.c[0].errored || s.c[1].errored || s.c[0].stopped || s.c[1].stopped
@@ -1570,7 +1613,6 @@ func (s *sim) Finish() {
 		s.c[i].end.Close()
 	}
 	e.Settle()
-	e.Logf("finish ok")
 }
 
 // leaked counts goroutines still inside MConnection code.
